@@ -484,6 +484,20 @@ def run(ctx):
             msg = "variable names %r are not the column labels %r" % (sorted(qcols), sorted(mf["cols"]))
         else:
             msg = rows_match(want_rows, got_rows, colmap)
+            if msg is not None:
+                # "builds exactly the constraints the format defines": an equality and the pair of opposite inequalities
+                # (what fromfile writes for a zero RANGES entry on an L or G row) define the same set
+                def split(rows):
+                    out = []
+                    for k_, a_, b_ in rows:
+                        if k_ == "=":
+                            out.append(("<", dict(a_), b_)); out.append(("<", {kk: -vv for kk, vv in a_.items()}, -b_))
+                        else:
+                            out.append((k_, a_, b_))
+                    return out
+                if rows_match(split(want_rows), split(got_rows), colmap) is None:
+                    ctx.count("reader.equality-as-two-inequalities")
+                    msg = None
         if msg is not None:
             c.fail(diag_reader(mf, want_rows, got_rows, what), "%s: constraints built by fromfile differ from the file: %s" % (what, msg),
                    file_rows=want_rows[:12], op_rows=got_rows[:12])
@@ -578,6 +592,9 @@ def run(ctx):
         for r in rows:
             if rng.random() < 0.45:
                 ranges[r["name"]] = abs(val(rng)) * rng.choice([1, -1])
+                if rng.random() < 0.2:
+                    ranges[r["name"]] = 0.0        # a zero range pins an L or G row to its right-hand side
+                    ctx.count("range.zero")
         bounds = []          # (type, col, value or None) in file order
         for cn in cols:
             k = rng.choice(["none", "none", "LO", "UP", "LOUP", "FX", "FR", "MI", "MIUP", "PL", "LOPL", "UPLO"])
@@ -681,7 +698,7 @@ def run(ctx):
         for r in model["rows"]:
             ctx.count("row." + r["type"])
             if r["name"] in model["ranges"]:
-                ctx.count("range.%s%s" % (r["type"], "+" if model["ranges"][r["name"]] > 0 else "-"))
+                ctx.count("range.%s%s" % (r["type"], "+" if model["ranges"][r["name"]] > 0 else ("0" if model["ranges"][r["name"]] == 0 else "-")))
         bt = set()
         for t, cn, v in model["bounds"]:
             ctx.count("bound." + t); bt.add(t)
